@@ -108,7 +108,8 @@ pub fn variants_of(p: &Program) -> Vec<usize> {
 }
 
 /// `variant` 0: as printed; 1: every identifier spelled with `-` and `$` inside, every module
-/// prefixed with a multi-byte block comment and with CRLF line ends; 2: the workspace folder
+/// prefixed with a multi-byte block comment, with CRLF line ends and with blanks around the
+/// dot of every qualified name; 2: the workspace folder
 /// holds only the main module, the others lie in a sibling directory and are imported as
 /// `../shared/<file>`.
 pub fn layout(p: &Program, variant: usize) -> Layout {
@@ -136,7 +137,8 @@ pub fn layout(p: &Program, variant: usize) -> Layout {
         }
         _ => p,
     };
-    let printed = print(p);
+    // the second layout also writes qualified names with blanks around the dot
+    let printed = if variant == 1 { crate::gen::print_spaced_dots(p) } else { print(p) };
     let reso = refsem::resolve(p, &printed);
     if variant != 1 {
         return Layout {
